@@ -350,10 +350,16 @@ Qed.
 
 Lemma st_rel_next st g st' : st_rel st g st' -> st_next st g = Some st'.
 Proof.
-  intros H. destruct H; try reflexivity.
-  unfold st_next. destruct H as [->|[->| ->]]; cbn [G_Literal G_Number G_String G_StartObject G_StartArray
-    G_EndObject G_EndArray Z.eqb Pos.eqb orb];
-    unfold S_ObjectKey in *; replace (s =? 1) with false by lia; reflexivity.
+  intros H. destruct H as [st Ht|st Ht|st|st|st|st g s Hg Hs|st]; try reflexivity.
+  - unfold st_next. cbn [G_StartObject G_StartArray Z.eqb Pos.eqb orb].
+    destruct st as [|s t]; [reflexivity|]. cbn [top] in Ht. unfold S_ObjectKey in *.
+    replace (s =? 1) with false by (destruct (Z.eqb_spec s 1); [subst; congruence|reflexivity]). reflexivity.
+  - unfold st_next. cbn [G_StartObject G_StartArray Z.eqb Pos.eqb orb].
+    destruct st as [|s t]; [reflexivity|]. cbn [top] in Ht. unfold S_ObjectKey in *.
+    replace (s =? 1) with false by (destruct (Z.eqb_spec s 1); [subst; congruence|reflexivity]). reflexivity.
+  - unfold st_next. destruct Hg as [->|[->| ->]]; cbn [G_Literal G_Number G_String G_StartObject G_StartArray
+      G_EndObject G_EndArray Z.eqb Pos.eqb orb];
+      unfold S_ObjectKey in *; replace (s =? 1) with false by lia; reflexivity.
 Qed.
 
 Lemma steps_st_run d : forall tr p, steps d p tr ->
